@@ -133,7 +133,7 @@ def line_of(case) -> str:
     if k in ('G', 'V'):
         z = case.get('z')
         return (f"k={k} m={case['m']} op={case['op']} l={enc_seq(case['l'])} r={enc_seq(case['r'])}"
-                + ('' if z is None else f' z={z}'))
+                + ('' if z is None else f' z={z}') + (' c=ci' if case.get('c') == 'ci' else ''))
     if k == 'B':
         return f"k=B m={case['m']} f={case['f']} l={enc_seq(case['l'])}"
     if k == 'L':
@@ -155,6 +155,8 @@ def case_json(case) -> dict:
         return [TYPE_NAMES[t], *[list(x) if isinstance(x, tuple) else x for x in v]]
     out = {'line': line_of(case), 'expr': expr_of(case), 'mode': case['m'],
            'l': [item(i) for i in case['l']]}
+    if case.get('c') == 'ci':
+        out['default_collation'] = CI_COLLATION
     if 'r' in case:
         out['r'] = [item(i) for i in case['r']]
     return out
@@ -172,10 +174,21 @@ def get_token(mode: str, expr: str):
         if mode not in _parsers:
             from elementpath import XPath1Parser, XPath2Parser
             from elementpath.xpath31 import XPath31Parser
+            ci = {'default_collation': CI_COLLATION}
             _parsers[mode] = {'v1': lambda: XPath1Parser(), 'v2c': lambda: XPath2Parser(compatibility_mode=True),
-                              'v2': lambda: XPath2Parser(), 'v31': lambda: XPath31Parser()}[mode]()
+                              'v2': lambda: XPath2Parser(), 'v31': lambda: XPath31Parser(),
+                              'v2c+ci': lambda: XPath2Parser(compatibility_mode=True, **ci),
+                              'v2+ci': lambda: XPath2Parser(**ci), 'v31+ci': lambda: XPath31Parser(**ci)}[mode]()
         tok = _tokens[key] = _parsers[mode].parse(expr)
     return tok
+
+
+CI_COLLATION = 'http://www.w3.org/2005/xpath-functions/collation/html-ascii-case-insensitive'
+
+
+def pmode(case) -> str:
+    """the parser of a case: its mode, plus '+ci' when the parser is built with the case-insensitive default collation"""
+    return case['m'] + ('+ci' if case.get('c') == 'ci' else '')
 
 
 def expr_of(case) -> str:
@@ -307,7 +320,10 @@ def make_context(root, variables, z):
 
 _selectors: dict = {}
 PARSER_KW = {'v1': ('XPath1Parser', {}), 'v2c': ('XPath2Parser', {'compatibility_mode': True}),
-             'v2': ('XPath2Parser', {}), 'v31': ('XPath31Parser', {})}
+             'v2': ('XPath2Parser', {}), 'v31': ('XPath31Parser', {}),
+             'v2c+ci': ('XPath2Parser', {'compatibility_mode': True, 'default_collation': CI_COLLATION}),
+             'v2+ci': ('XPath2Parser', {'default_collation': CI_COLLATION}),
+             'v31+ci': ('XPath31Parser', {'default_collation': CI_COLLATION})}
 
 
 def parser_class(mode):
@@ -402,13 +418,13 @@ def run_impl(case) -> str:
     except Exception as e:  # noqa  (a constructor of the library refusing a generated value)
         return 'ERR:BUILD:' + type(e).__name__
     try:
-        tok = get_token(case['m'], expr_of(case))
+        tok = get_token(pmode(case), expr_of(case))
         if case.get('f') == 'blist':     # the list branch of boolean_value, called directly on the token
             return canon_result(tok.boolean_value(list(variables['a'])))
         # a singleton operand is bound as a scalar or as a one-item list (deterministically by its content)
         variables = {k: (v[0] if len(v) == 1 and (len(repr(v[0])) + len(case['m'])) % 2 == 0 else v)
                      for k, v in variables.items()}
-        return canon_result(evaluate_paths(case['m'], expr_of(case), root, variables, case.get('z'),
+        return canon_result(evaluate_paths(pmode(case), expr_of(case), root, variables, case.get('z'),
                                            variant_of(line_of(case))))
     except ElementPathError as e:
         code = (getattr(e, 'code', None) or '?').split(':')[-1]
@@ -429,9 +445,9 @@ POOLS = {
           -1e308, 0.30000000000000004, 0.3],
     'g': [float('nan'), float('inf'), float('-inf'), 0.0, -0.0, 1.0, 1.5, 2.0, f32(1.0000001), f32(1.0000002),
           f32(0.1), 16777216.0, -1.0, 3.0, 10.0, 9.0, f32(3.4e38), f32(1.00000012), f32(1.00000024), f32(1e30), f32(1.00000036), 2 - 2 ** -23, 2 - 2 ** -22, 2 - 3 * 2 ** -23],
-    's': ['', 'a', 'abc', 'abd', 'ab', 'B', '1', '1.0', '10', '9', 'true', 'false', 'NaN', 'INF', '-INF', ' 1 ', '-0', ' a ', '\tabc\n',
+    's': ['', 'a', 'abc', 'abd', 'ab', 'B', '1', '1.0', '10', '9', 'true', 'false', 'NaN', 'INF', '-INF', ' 1 ', '-0', ' a ', '\tabc\n', 'A', 'ABC', 'aBd', 'b', 'TRUE', 'inf',
           '\U00010000', '￿', 'é', '1.5', '0', '-1', '+1', 'x', '1.00000001', '2', '3', 'ba', '12', 'abca', '4' + '0' * 38, '0.' + '0' * 40 + '1'],
-    'a': ['', 'a', 'abc', 'abd', 'ab', 'B', '1', 'x', 'é', '10', '9'],
+    'a': ['', 'a', 'abc', 'abd', 'ab', 'B', '1', 'x', 'é', '10', '9', 'A', 'ABC', 'aBd'],
     'b': [True, False],
     'q': [('', '', 'a'), ('urn-x', 'p', 'a'), ('urn-y', 'p', 'a'), ('urn-x', 'q', 'a'), ('urn-x', 'p', 'b'),
           ('', '', 'abc'), ('urn-x', '', 'a')],
@@ -447,7 +463,7 @@ POOLS = {
 }
 POOLS['u'] = POOLS['s']
 NODE_TEXTS = ['', 'a', 'abc', 'abd', '1', '1.0', '10', '9', 'true', 'false', 'NaN', ' 1 ', '1.5', '0', '-1', 'x', '2',
-              'é', '12', 'INF']
+              'é', '12', 'INF', 'A', 'ABC', 'B']
 
 
 def pool_item(t, v):
@@ -617,6 +633,19 @@ def corpus():
         for dl in (9.9999e-8, 1.00000015e-7, 1.005e-7):     # Float.__eq__/__ne__ at the exact tolerance boundary
             c.append({'k': 'V', 'm': 'v2', 'op': op, 'l': [('g', 3.0)], 'r': [('g', 3.0 * (1 + dl))]})
             c.append({'k': 'G', 'm': 'v31', 'op': op, 'l': [('g', -7.25 * (1 + dl))], 'r': [('g', -7.25)]})
+        for m in ('v2', 'v2c', 'v31'):      # default collation html-ascii-case-insensitive (c=ci) against codepoint
+            for cc in ({'c': 'ci'}, {}):
+                c.append({'k': 'V', 'm': m, 'op': op, 'l': [('s', 'a')], 'r': [('s', 'A')], **cc})
+                c.append({'k': 'G', 'm': m, 'op': op, 'l': [('s', 'a')], 'r': [('s', 'A')], **cc})
+                c.append({'k': 'V', 'm': m, 'op': op, 'l': [('s', 'a')], 'r': [('s', 'B')], **cc})
+                c.append({'k': 'G', 'm': m, 'op': op, 'l': [('s', 'x'), ('s', 'A')], 'r': [('s', 'b'), ('a', 'a')], **cc})
+                c.append({'k': 'G', 'm': m, 'op': op, 'l': [('u', ' a ')], 'r': [('a', 'A')], **cc})
+                c.append({'k': 'G', 'm': m, 'op': op, 'l': [('a', 'A')], 'r': [('u', ' a ')], **cc})
+                c.append({'k': 'G', 'm': m, 'op': op, 'l': [('n', 'ABC')], 'r': [('n', 'abc'), ('s', 'abd')], **cc})
+                c.append({'k': 'V', 'm': m, 'op': op, 'l': [('n', 'ABC')], 'r': [('a', 'abc')], **cc})
+                c.append({'k': 'G', 'm': m, 'op': op, 'l': [('u', 'TRUE')], 'r': [('b', True)], **cc})
+                c.append({'k': 'G', 'm': m, 'op': op, 'l': [('u', 'A')], 'r': [('q', '', '', 'a')], **cc})
+                c.append({'k': 'G', 'm': m, 'op': op, 'l': [('s', 'Z')], 'r': [('s', '_'), ('s', '[')], **cc})
         for m in ('v2', 'v2c', 'v31'):      # untypedAtomic cast on either side: QName, anyURI, integer
             for u in (' a ', 'a', '1', ''):
                 c.append({'k': 'G', 'm': m, 'op': op, 'l': [('q', '', '', 'a')], 'r': [('u', u)]})
@@ -715,6 +744,26 @@ def gen_cases(run: Run):
         else:
             l, rr = rand_seq(rng, 3, 0.15, types), rand_seq(rng, 3, 0.15, types)
         cases.append({'k': k, 'm': m, 'op': rng.choice(OPS), 'l': l, 'r': rr})
+    # (3b) a second parser of each 2.0+ mode built with default_collation = html-ascii-case-insensitive: string-like
+    #      operands differing in case only / in case and content, and a sample of all the cases above
+    CASEY = ['a', 'A', 'abc', 'ABC', 'aBd', 'abd', 'B', 'b', 'ab', 'Z', 'z', '[', '_', '`', 'É', 'é', '', ' a ', ' A', '1', 'x']
+    for _ in range(run.scale(2500, 30000)):
+        m = rng.choice(['v2c', 'v2', 'v31'])
+
+        def sitem():
+            t = rng.choice(['s', 's', 'u', 'a', 'n'])
+            v = rng.choice(CASEY)
+            return (t, v.strip() if t == 'a' else v)
+        if rng.random() < 0.7:
+            l, rr = [sitem()], [sitem()]
+        else:
+            l = [sitem() for _ in range(rng.choice([0, 1, 2, 3]))]
+            rr = [sitem() if rng.random() < 0.85 else rand_item(rng) for _ in range(rng.choice([1, 2, 3]))]
+        k = 'V' if (len(l) == 1 and len(rr) == 1 and rng.random() < 0.5) else 'G'
+        cases.append({'k': k, 'm': m, 'op': rng.choice(OPS), 'l': l, 'r': rr, 'c': 'ci'})
+    for c in list(cases):
+        if c['k'] in 'GV' and c['m'] != 'v1' and 'c' not in c and rng.random() < 0.12:
+            cases.append(dict(c, c='ci'))
     # (4) effective boolean value: every shape; logic
     shapes = [[]]
     for t in TYPES:
@@ -899,6 +948,8 @@ def compare(run: Run, cases: list, count=True) -> None:
             k = case['k']
             nontrivial = bool(case['l']) and bool(case.get('r', [1]))
             st.case(case_json(case), nontrivial=nontrivial)
+            if case.get('c') == 'ci':
+                st.count('default-collation:html-ascii-case-insensitive')
             st.count(f'kind:{k}')
             st.count(f'path:{variant_of(line)}')
             st.count(f'mode:{case["m"]}')
@@ -1017,6 +1068,13 @@ def search(run: Run):
                         cases.append({'k': 'V', 'm': m, 'op': op, 'l': [a], 'r': [b]})
     if run.quick:
         cases = cases[::3]
+    svals = [v for v in vals if v[0] in 'sua']
+    for m in ('v2c', 'v2', 'v31'):
+        for a in svals:
+            for b in svals:
+                for op in OPS:
+                    cases.append({'k': 'G', 'm': m, 'op': op, 'l': [a], 'r': [b], 'c': 'ci'})
+                    cases.append({'k': 'V', 'm': m, 'op': op, 'l': [a], 'r': [b], 'c': 'ci'})
     for m in MODES:
         for a in vals:
             for f in ('boolean', 'not'):
@@ -1139,7 +1197,8 @@ def body(run: Run) -> int:
         'the calendar of the C11 specification and cross-checked against Python datetime on every run',
         'durations have whole seconds; xs:float values are binary32-representable, except in the tolerance block where '
         'a Float holds the double nearest to a decimal literal (as xs:float(\'1.00000001\') does)',
-        'default collation = Unicode codepoint collation']
+        'default collation = Unicode codepoint collation, or html-ascii-case-insensitive for the cases marked c=ci '
+        '(a second parser per 2.0+ mode); locale (UCA) collations are not exercised: no locale is installed here']
     run.stats.extra['tables'] = translate_tables(run)
     run.trusted_base.append('translator harness/c07.py::translate_tables (isinstance / class matrices of the live '
                             'datatype classes printed as Lean literals)')
